@@ -6,11 +6,11 @@
    abstract fields (field type x rules x list rules x format x key qualifiers x array/map wrapper x
    required/optional, including shapes no source text can produce).  The BCL lexer/parser is C11's;
    the BCL walker's reflection mechanics are explored by the correspondence streams, not modelled. *)
-From Coq Require Import String List Bool Arith.
-From J5V.lib Require Import Outcome.
-From J5V.gen Require SetExtGen PanicGen.
-From J5V.model Require Import CmpbFields CmpbDecls.
-From J5V.proofs Require Import CmpbFieldsProofs CmpbPanicProofs CmpbDeclsProofs CmpbSchemaProofs.
+From Coq Require Import String List NArith ZArith Bool Arith.
+From J5V.lib Require Import Text Outcome.
+From J5V.gen Require SetExtGen PanicGen WalkerGen.
+From J5V.model Require Import BclLexer BclParser CmpbFields CmpbDecls CmpbFront CmpbWalker.
+From J5V.proofs Require Import BclPosProofs BclBytesProofs CmpbFieldsProofs CmpbPanicProofs CmpbDeclsProofs CmpbSchemaProofs CmpbFrontProofs.
 Import ListNotations.
 Local Open Scope string_scope.
 
@@ -170,6 +170,104 @@ Theorem C07_panic_sites_agree : panic_sites_same_set = true.
 Proof. exact panic_sites_agree. Qed.
 Print Assumptions C07_panic_sites_agree.
 
+(* ======================================================================================================
+   The FIRST SENTENCE of the property — "for any source text, parsing and compiling returns either
+   descriptors or errors that carry a position inside the offending file; never panics or hangs" — for one
+   source file through the front end (model/CmpbFront.v):
+     bytes -> parse_file (C11's model of the BCL lexer + parser, cited through its theorems)
+           -> walk (the schema-driven walker: NOT modelled, a function parameter with an outcome)
+           -> sourcewalk child / GetPos + conversionVisitor.addError -> the converter model above.
+   ====================================================================================================== *)
+Definition C07_front_end_statement := front_end_statement.
+
+(* totality: for EVERY byte string and every walker that returns, the front end returns; the one panic left
+   is the converter's own, on a declaration with a list request.  The lexer / parser part is C11's
+   parse_runes_total and parse_runes_tree_or_diags (a nil tree never reaches ParseAST) *)
+Theorem C07_front_end_total : forall walk ff input, walker_returns walk ->
+  match front_end walk ff input with
+  | Ok _ => True
+  | Panic _ => exists body t lf, walk body = Ok (WalkFile t lf) /\ file_panics (map erase lf) = true
+  | _ => False
+  end.
+Proof. exact front_end_total. Qed.
+Print Assumptions C07_front_end_total.
+
+Theorem C07_front_end_never_panics : forall walk ff input, walker_returns walk ->
+  (forall body t lf, walk body = Ok (WalkFile t lf) -> no_list_requests (map erase lf)) ->
+  exists out, front_end walk ff input = Ok out.
+Proof. exact front_end_never_panics. Qed.
+Print Assumptions C07_front_end_never_panics.
+
+(* positions: every error of the parse, walk and convert stages has both ends at positions of the input
+   (C11's parse_runes_positions for diagnostics and tree nodes + the walker's contract + the plumbing below),
+   and an error result is never empty *)
+Theorem C07_front_end_errors_positioned : forall walk ff input st es, walker_contract walk ->
+  front_end walk ff input = Ok (FEErrors st es) ->
+  es <> [] /\ Forall (span_inside (utf8_decode input)) es.
+Proof. exact front_end_errors_positioned. Qed.
+Print Assumptions C07_front_end_errors_positioned.
+
+(* ... in lines and columns of the file as Go sees it (C11_valid_is_inside_bytes) *)
+Theorem C07_front_end_errors_inside_file : forall walk ff input st es, walker_contract walk ->
+  front_end walk ff input = Ok (FEErrors st es) ->
+  Forall (fun sp => inside_bytes input (fst sp) /\ inside_bytes input (snd sp)) es.
+Proof. exact front_end_errors_inside_bytes. Qed.
+Print Assumptions C07_front_end_errors_inside_file.
+
+(* "descriptors or errors": no error reported => every output file was built and links *)
+Theorem C07_front_end_descriptors : forall walk ff input v lf,
+  front_end walk ff input = Ok (FEConverted v lf) -> no_list_requests (map erase lf) ->
+  v = VOk /\ file_nerr (map erase lf) = 0.
+Proof. exact front_end_descriptors. Qed.
+Print Assumptions C07_front_end_descriptors.
+
+(* the statement holds for every walker that returns and respects the position contract, on files without
+   list requests.  MISSING for the real compiler: that the real walker returns and respects the contract
+   (no model: reviewed census + crash stream with measured coverage + CFrontFile/CFrontErrs correspondence) *)
+Theorem C07_front_end_partial : forall walk,
+  walker_returns walk -> walker_contract walk ->
+  (forall body t lf, walk body = Ok (WalkFile t lf) -> no_list_requests (map erase lf)) ->
+  C07_front_end_statement walk.
+Proof. exact front_end_statement_partial. Qed.
+Print Assumptions C07_front_end_partial.
+(* ... and fails for a walker that hands on a list request (the recorded finding) *)
+Theorem C07_front_end_refuted_listrequest :
+  walker_returns listreq_walk /\ walker_contract listreq_walk /\ ~ C07_front_end_statement listreq_walk.
+Proof. exact front_end_statement_refuted_listreq. Qed.
+Print Assumptions C07_front_end_refuted_listrequest.
+
+(* ---- the error-position plumbing of the converter stage *)
+(* SourceNode.child + GetPos: the position of a node is a span stored in the location tree — its own, or
+   the one of the nearest enclosing node the walker recorded *)
+Theorem C07_position_is_a_recorded_span : forall p t, In (child_span p t) (spans t).
+Proof. exact child_span_in. Qed.
+Print Assumptions C07_position_is_a_recorded_span.
+
+(* every error the converter model emits carries the SourceNode of (a part of) the offending declaration
+   and the position addError attaches is that node's span *)
+Theorem C07_compile_errors_positioned : forall t lf, forallb ldecl_wf lf = true ->
+  forall e, In e (conv_errors t lf) ->
+    (exists d, In d lf /\ In (fst e) (decl_errors d) /\ is_prefix (ldecl_path d) (fst e) = true)
+    /\ snd e = child_span (fst e) t
+    /\ In (snd e) (spans t).
+Proof. exact compile_errors_positioned. Qed.
+Print Assumptions C07_compile_errors_positioned.
+
+(* the error list is the error counter of the converter model (file_nerr, on which file_verdict decides) *)
+Theorem C07_error_list_is_error_count : forall lf, length (file_errors lf) = file_nerr (map erase lf).
+Proof. exact file_errors_length. Qed.
+Print Assumptions C07_error_list_is_error_count.
+Theorem C07_one_error_per_failing_property : forall lp, length (prop_errors lp) <= 1.
+Proof. exact prop_errors_at_most_one. Qed.
+Print Assumptions C07_one_error_per_failing_property.
+
+(* ---- the unmodelled walker: census only (no theorem about it).  Every syntactic run-time panic source in
+   internal/bcl/parse.go and internal/bcl/internal/walker (gen/WalkerGen.v) has a review note and vice versa;
+   the functions holding them exist; the crash stream's measured coverage must include them (CWalkCov) *)
+Theorem C07_walker_census_agree : walker_sites_same_set = true /\ required_funcs_exist = true.
+Proof. exact (conj walker_sites_agree walker_required_funcs_exist). Qed.
+Print Assumptions C07_walker_census_agree.
+
 (* ---- non-vacuity: concrete members of the language exercising rules, list rules, wrappers *)
 Example C07_example :
   let p := mkProp false (Array (Some (TInteger I64 (Some (mkIR true true (Some true) None false)) true)) (Some true) true) true false in
@@ -196,3 +294,17 @@ Example C07_example_rejected :
   o_verdict (compile_iso (mkProp false (Plain (TObject RNotFound false false)) false false)) = VConvErr
   /\ iso_nerr (mkProp false (Plain (TObject RNotFound false false)) false false) = 1.
 Proof. vm_compute. split; reflexivity. Qed.
+
+(* the front end computes, with a small concrete walker that satisfies the hypotheses (NOT the j5s walker:
+   every top-level block becomes an object located at its header; a block of type `bad` holds a property
+   without schema): a converted file, a conversion error positioned at the block header (the property's
+   own node has no location, so the enclosing one is used), a parser diagnostic *)
+Example C07_example_front_end :
+  walker_returns demo_walk /\ walker_contract demo_walk
+  /\ front_end demo_walk true [97;32;123;10;125;10]%N = Ok (FEConverted VOk [LObject ["elements"; ""] false []])
+  /\ front_end demo_walk true [97;32;123;10;125;10;98;97;100;32;123;10;125;10]%N = Ok (FEErrors SConvert [((2, 0)%Z, (2, 4)%Z)])
+  /\ front_end demo_walk true [120;32;61;32;35;10]%N = Ok (FEErrors SParse [((0, 4)%Z, (0, 4)%Z)]).
+Proof.
+  split; [exact demo_walk_returns|]. split; [exact demo_walk_contract|].
+  repeat split; vm_compute; reflexivity.
+Qed.
